@@ -1,6 +1,6 @@
 CONSTANTS
  Confs <- MCConfs
- FixWaitErr = FALSE
+ FixWaitErr = TRUE
  Reduce = FALSE
  MCShapes = {"schema1", "bentry", "dtag", "art", "loop", "idx2"}
  MCPairs = {"samereg", "tworeg", "reg2dir", "samerepo", "dir2reg"}
